@@ -260,19 +260,30 @@ def _assigned_consts(body, operand):
 OPTIONAL_ACCESSORS = ("ast::RuleDecl::regex", "ast::Paren::inner", "ast::TokenDecl::symbol")
 
 
+ACC_EXEMPT = {
+    ("backend::rust::RustOutput::output_regex", "ast::TokenDecl::symbol"):
+        "in the arm for a symbol reference `'x'`: the reference is bound (decl_bindings) to the token declaration that declares this very symbol, so the declaration has one",
+}
+
+
 def accessor_unwrap(ctx, rep, rid="ACC"):
     rep.rule(rid, "contradiction rule: RuleDecl::regex, Paren::inner and TokenDecl::symbol return None for constructs that are legal in an "
                   "accepted grammar (empty rule, empty parentheses, token without symbol); almost every call site tests the Option; a "
                   "call site in the back ends or the analysis whose result flows directly into Option::unwrap/expect panics on an accepted grammar")
     lib = ctx.lelwel()
     n = 0
+    exempt_used = {}
     for b in user_bodies(lib):
         for pt, name, decl, args, t in calls(b):
-            if name.endswith("Option<T>::unwrap") or name.endswith("Option<T>::expect"):
+            if re.search(r"Option(<T>)?::(unwrap|expect)$", name):
                 a = args[0]
                 hit = None
                 if a[0] == "call" and any(a[1].endswith(x) for x in OPTIONAL_ACCESSORS):
                     hit = a[1]
+                if hit and (b.name, hit.split("frontend::")[-1]) in ACC_EXEMPT and exempt_used.get((b.name, hit), 0) < 1:
+                    exempt_used[(b.name, hit)] = 1
+                    rep.ok(rid, "%s unwraps %s  [%s]" % (b.name, fn_tail(hit), ACC_EXEMPT[(b.name, hit.split("frontend::")[-1])]))
+                    hit = None
                 if hit:
                     rep.violation(rid, "%s|unwrap|%s" % (b.name, hit), "%s unwraps the result of %s, which is None for a construct accepted grammars may contain"
                                   % (b.name, hit), site(b, pt))
